@@ -502,6 +502,12 @@ theorem wellformed_runs {V : Type} (ar : Arith V) (env : Env V) (hat : ArithTota
   match s', hlen with
   | [v], _ => exact ⟨v, hr⟩
 
+/-- the fuel of the tokenizer model is not observable: any fuel above the number of characters
+gives the result of `tokenize` (so a `none` of `tokenize` is always one of the code's `bail!`s) -/
+theorem tokenize_fuel_irrelevant (input : List Nat) (fuel : Nat) (h : input.length < fuel) :
+    tokenizeGo fuel input true [] = tokenize input :=
+  tokenizeGo_fuel fuel (input.length + 1) input true [] h (Nat.lt_succ_self _)
+
 /-- arithmetic over `Nat` that never fails (for the examples) -/
 def natArith : Arith Nat :=
   ⟨fun a b => some (a + b), fun a b => some (a - b), fun a b => some (a * b), fun a b => some (a / b),
